@@ -31,7 +31,7 @@ def main():
     ap = argparse.ArgumentParser()
     ap.add_argument("prop")
     ap.add_argument("n")
-    ap.add_argument("--src", default="/tmp/seed")
+    ap.add_argument("--src", default="/tmp/seed2")
     ap.add_argument("--keep", action="store_true")
     ap.add_argument("--tier", default="quick")
     ap.add_argument("--props")
